@@ -1,6 +1,6 @@
 #!/bin/bash
 # bin/seed_batch.sh <PID>...   confirm + check every variant of the listed seed worktrees under /tmp/seed
-for p in "$@"; do for v in A B; do
+VARS="${SEED_VARIANTS:-A B}"; for p in "$@"; do for v in $VARS; do
   d=/tmp/seed/$p/seed_out/$v
   [ -f $d/patch.diff ] || { echo "== $p-$v: no patch"; continue; }
   echo "== $p-$v confirm: $(/verif/bin/seed_confirm.sh /tmp/seed/$p $d)"
